@@ -3458,6 +3458,17 @@ impl Context {
             merge_block: 0,
         });
 
+        // Only one arm runs. The arms' state cells are laid out one after another, so every arm
+        // starts from the state cursor reached at the match, moved past the cells of the arms
+        // listed before it, and every arm must leave the cursor behind the cells of all arms.
+        let (match_push_sum, match_pending) = {
+            let data = self.get_ctxdata();
+            (data.push_sum, data.next_state_offset.unwrap_or(0))
+        };
+        let mut arms_state_size: u64 = 0;
+        // (last block of the arm, cursor reached at its end)
+        let mut arm_ends: Vec<(usize, u64)> = vec![];
+
         // Generate blocks for each constructor pattern
         let (case_blocks, case_results, case_states): (Vec<_>, Vec<_>, Vec<_>) = tag_arms
             .iter()
@@ -3465,10 +3476,13 @@ impl Context {
                 self.add_new_basicblock();
                 let block_idx = self.get_ctxdata().current_bb as u64;
 
-                // Reset state offset at the start of each arm
-                // This ensures each arm starts with a clean state context
-                self.get_ctxdata().next_state_offset = None;
-                self.get_ctxdata().push_sum = 0;
+                // Start this arm behind the cells of the arms generated so far
+                {
+                    let start_offset = match_pending + arms_state_size;
+                    let data = self.get_ctxdata();
+                    data.push_sum = match_push_sum;
+                    data.next_state_offset = (start_offset > 0).then_some(start_offset);
+                }
 
                 // Extract value from the tagged union if there's a binding pattern and payload type
                 if let MatchPattern::Constructor(_, Some(inner_pattern)) = &arm.pattern
@@ -3486,6 +3500,10 @@ impl Context {
                 }
 
                 let (result_val, _, arm_states) = self.eval_expr(arm.body);
+                // emit the arm's pending cursor move inside the arm
+                self.consume_and_insert_pushoffset();
+                arms_state_size += arm_states.iter().map(|s| s.total_size()).sum::<u64>();
+                arm_ends.push((self.get_ctxdata().current_bb, self.get_ctxdata().push_sum));
                 ((*tag, block_idx), result_val, arm_states)
             })
             .fold(
@@ -3507,11 +3525,18 @@ impl Context {
             self.add_new_basicblock();
             let block_idx = self.get_ctxdata().current_bb as u64;
 
-            // Reset state offset for default arm
-            self.get_ctxdata().next_state_offset = None;
-            self.get_ctxdata().push_sum = 0;
+            // The default arm starts behind the cells of all constructor arms
+            {
+                let start_offset = match_pending + arms_state_size;
+                let data = self.get_ctxdata();
+                data.push_sum = match_push_sum;
+                data.next_state_offset = (start_offset > 0).then_some(start_offset);
+            }
 
             let (result_val, _, arm_states) = self.eval_expr(arm.body);
+            self.consume_and_insert_pushoffset();
+            arms_state_size += arm_states.iter().map(|s| s.total_size()).sum::<u64>();
+            arm_ends.push((self.get_ctxdata().current_bb, self.get_ctxdata().push_sum));
             all_arm_states.push(arm_states);
             case_results.push(result_val);
             Some(block_idx)
@@ -3520,47 +3545,18 @@ impl Context {
             None
         };
 
-        // Calculate maximum state size across all arms
-        let arm_state_sizes: Vec<u64> = all_arm_states
-            .iter()
-            .map(|states| states.iter().map(|s| s.total_size()).sum::<u64>())
-            .collect();
-        let max_state_size = arm_state_sizes.iter().copied().max().unwrap_or(0);
-
-        // Insert PushStateOffset for arms with smaller state sizes
-        // This ensures all arms have the same state offset when merging
-        for (i, ((_tag, block_idx), state_size)) in
-            case_blocks.iter().zip(arm_state_sizes.iter()).enumerate()
-        {
-            if *state_size < max_state_size {
-                let offset = max_state_size - state_size;
-                let block = self
-                    .get_current_fn()
-                    .body
-                    .get_mut(*block_idx as usize)
-                    .unwrap();
-                // Insert PushStateOffset at the end of the block (before result)
-                block
-                    .0
-                    .push((Arc::new(Value::None), Instruction::PushStateOffset(offset)));
+        // Every arm ends behind the cells of all arms: pad the arms that stopped earlier
+        let common_sum = match_push_sum + match_pending + arms_state_size;
+        for (end_bidx, end_sum) in arm_ends {
+            if end_sum < common_sum {
+                let block = self.get_current_fn().body.get_mut(end_bidx).unwrap();
+                block.0.push((
+                    Arc::new(Value::None),
+                    Instruction::PushStateOffset(common_sum - end_sum),
+                ));
             }
         }
-
-        // Handle default block state adjustment if it exists
-        if let Some(default_idx) = default_block_idx {
-            let default_state_size = arm_state_sizes.last().copied().unwrap_or(0);
-            if default_state_size < max_state_size {
-                let offset = max_state_size - default_state_size;
-                let block = self
-                    .get_current_fn()
-                    .body
-                    .get_mut(default_idx as usize)
-                    .unwrap();
-                block
-                    .0
-                    .push((Arc::new(Value::None), Instruction::PushStateOffset(offset)));
-            }
-        }
+        self.get_ctxdata().push_sum = common_sum;
 
         // Generate merge block with PhiSwitch
         self.add_new_basicblock();
